@@ -75,7 +75,8 @@ def mon_el(ops, res):
                     mn = min(queued.values())
                     if ts != mn:
                         v.append("C01: op %d popped timestamp %r while %r is queued" % (i, ts, mn))
-                    first = min((tg for tg, x in queued.items() if x == ts), key=lambda tg: order[tg])
+                    same = [tg for tg, x in queued.items() if x == ts]
+                    first = min(same, key=lambda tg: order[tg]) if same else tag
                     if tag != first and queued[tag] == ts:
                         v.append("C03: op %d popped event %d before event %d, both due at %r, %d was scheduled first"
                                  % (i, tag, first, ts, first))
@@ -444,7 +445,6 @@ def mon_C03(sc, trace):
             elif t[2] == "cancel":
                 cancelled.add((n, int(t[3])))
     last = {}             # (src, dst) -> last index received
-    fired = defaultdict(list)
     for t in P:
         if t[0] == "cb" and t[3] == "packet" and t[4].isdigit():
             dst, msg = int(t[1]), int(t[4])
@@ -454,11 +454,25 @@ def mon_C03(sc, trace):
                     v.append("C03: node %d received message %d from node %d after a message sent later on the same link"
                              % (dst, msg, src))
                 last[(src, dst)] = max(last.get((src, dst), -1), idx)
-        if t[0] == "cb" and t[3] == "timer" and t[4].isdigit():
-            fired[(int(t[1]), fh(t[2]))].append(int(t[4]))
-    if has(sc, "T") and not cancelled:
-        for key, names in fired.items():
-            want = timers_set.get(key, [])
-            if names != want[:len(names)]:
-                v.append("C03: node %d timers due at %r fired in order %s, they were set in order %s" % (key[0], key[1], names, want))
+    # same-instant timers of a node fire in the order they were set (cancellations removed)
+    if has(sc, "T"):
+        pend = defaultdict(list)     # node -> [(ts, order, name)] still pending
+        order = 0
+        for t in P:
+            if t[0] == "act" and t[-1] == "ok" and t[2] == "settimer":
+                pend[int(t[1])].append((fh(t[4]), order, int(t[3])))
+                order += 1
+            elif t[0] == "act" and t[-1] == "ok" and t[2] == "cancel":
+                n, name = int(t[1]), int(t[3])
+                pend[n] = [e for e in pend[n] if e[2] != name]
+            elif t[0] == "cb" and t[3] == "timer" and t[4].isdigit():
+                n, tm, name = int(t[1]), fh(t[2]), int(t[4])
+                same = sorted(e for e in pend[n] if e[0] == tm)
+                if same:
+                    if same[0][2] != name and any(e[2] == name for e in same):
+                        v.append("C03: node %d timer %d fired at %r before timer %d which was set earlier for the same instant"
+                                 % (n, name, tm, same[0][2]))
+                    hit = next((e for e in same if e[2] == name), None)
+                    if hit is not None:
+                        pend[n].remove(hit)
     return v
